@@ -151,53 +151,79 @@ def run_histories(ctx, ops, pid, cfgs, info_ops=()):
     too, but a disagreement there is only counted (coverage["beyond_properties_agreement"])."""
     from harness import querycorpus
     import os
-    recs = []
+    import hashlib
+    n = 0
+    nontrivial = set()
+    prefix = 0
+    nrecs = 0
+    sample = None
+    beyond = {"agree": 0, "differ": 0, "first_difference": None}
+
+    def handle(batch):
+        nonlocal n, prefix
+        items = [(rec, querycorpus.variant_of(rec["doc0"], ctx.seed + len(rec["hist"]), ctx.quick)) for rec in batch]
+        for rec, style, plain, r in querycorpus.pmap(_work, items, chunk=200):
+            if rec["hist"][-1]["op"] in info_ops:
+                if r is None:
+                    beyond["agree"] += 1
+                elif r[0] != "prefix":
+                    beyond["differ"] += 1
+                    beyond["first_difference"] = beyond["first_difference"] or r[1][:600]
+                continue
+            n += 1
+            nontrivial.add(hashlib.md5((json.dumps(rec["doc0"]) + "|".join(s["op"] + s["dot"] + s["v"] for s in rec["hist"])).encode()).digest())
+            if r is None:
+                continue
+            kind, msg = r
+            if kind == "prefix":
+                prefix += 1
+                continue
+            last = rec["hist"][-1]
+            segkinds = "+".join(sorted(set(_segkinds(last["dot"]))))
+            sig = "%s:%s:%s" % (kind, last["op"], segkinds)
+            if kind == "crash":
+                sig += ":" + msg.split(" @ ")[-1].split(" ")[-1]
+            ctx.violation(sig, msg, {"kind": "history", "rec": rec, "style": style, "plain": plain, "via": "get" if kind.endswith("-by-query") else "set"})
+
+    # memory-bounded: the histories of the thorough configuration do not fit in memory at once (31 GB observed); they are
+    # read, filtered and replayed in batches
     for cfg in cfgs:
         f = ctx.path(cfg + ".cases")
         r = core.run_tlc(ctx, "MC_Edit", cfg, env={"CASES_OUT": f}, timeout=7200)
         if r["violated"]:
             raise core.MachineryError("%s violated in %s (see %s)" % (r["violated"], cfg, r["log"]))
-        recs.extend(x for x in core.read_csv_json_lines(f) if x["hist"][-1]["op"] in ops or x["hist"][-1]["op"] in info_ops)
+        batch = []
+        with open(f) as fh:
+            for line in fh:
+                line = line.strip()
+                if not line:
+                    continue
+                x = json.loads(line)
+                if isinstance(x, str):
+                    x = json.loads(x)
+                if x["hist"][-1]["op"] in ops or x["hist"][-1]["op"] in info_ops:
+                    batch.append(x)
+                    nrecs += 1
+                    if sample is None or nrecs == 1000:
+                        sample = x
+                    if len(batch) >= 20000:
+                        handle(batch)
+                        batch = []
+        if batch:
+            handle(batch)
         os.remove(f)
-    items = [(rec, querycorpus.variant_of(rec["doc0"], ctx.seed + len(rec["hist"]), ctx.quick)) for rec in recs]
-    n = 0
-    nontrivial = set()
-    prefix = 0
-    beyond = {"agree": 0, "differ": 0, "first_difference": None}
-    for rec, style, plain, r in querycorpus.pmap(_work, items, chunk=200):
-        if rec["hist"][-1]["op"] in info_ops:
-            if r is None:
-                beyond["agree"] += 1
-            elif r[0] != "prefix":
-                beyond["differ"] += 1
-                beyond["first_difference"] = beyond["first_difference"] or r[1][:600]
-            continue
-        n += 1
-        nontrivial.add(json.dumps(rec["doc0"]) + "|".join(s["op"] + s["dot"] + s["v"] for s in rec["hist"]))
-        if r is None:
-            continue
-        kind, msg = r
-        if kind == "prefix":
-            prefix += 1
-            continue
-        last = rec["hist"][-1]
-        segkinds = "+".join(sorted(set(_segkinds(last["dot"]))))
-        sig = "%s:%s:%s" % (kind, last["op"], segkinds)
-        if kind == "crash":
-            sig += ":" + msg.split(" @ ")[-1].split(" ")[-1]
-        ctx.violation(sig, msg, {"kind": "history", "rec": rec, "style": style, "plain": plain, "via": "get" if kind.endswith("-by-query") else "set"})
     ctx.coverage.update({
         "evaluations": n, "distinct_nontrivial": len(nontrivial), "histories_with_failing_prefix": prefix,
         "rule": "every history of MC_Edit (initial documents of the generator + curated ones x edits from the current document's vocabulary, depth <= EditDepth) whose last step is in %s; replayed on one Processor, final document + dump/reload compared; non-trivial = every history (each changes the document or is a refusal); distinct by (initial document, steps)" % sorted(ops),
         "traces_validated_against_impl": n, "exhaustive": True,
-        "samples": [recs[len(recs) // 2]] if recs else [],
+        "samples": [sample] if sample else [],
         "trusted_base": ["TLC 1.8", "spec/YEdit.tla as the plain-data model", "harness/absdoc.py abstraction"],
     })
     if info_ops:
         beyond["operations"] = sorted(info_ops)
         beyond["note"] = "single-step histories of operations outside the listed properties (YEdit.AliasStep); informational, never a verdict"
         ctx.coverage["beyond_properties_agreement"] = beyond
-    return recs
+    return nrecs
 
 
 def random_histories(ctx, pid, n_docs, steps):
